@@ -208,26 +208,51 @@ def leanchecker(pid, timeout=3000):
     return p.returncode == 0, _clean(p.stdout + p.stderr)[-2000:]
 
 
+# drivers that are also built as native executables (their imports are Mathlib-free)
+NATIVE = {'Sched': 'sched_driver'}
+
+
+def _driver_cmd(main):
+    exe = NATIVE.get(main)
+    if exe:
+        with lake_lock():
+            p = subprocess.run(['lake', 'build', exe], cwd=LEAN, capture_output=True, text=True)
+        path = os.path.join(LEAN, '.lake', 'build', 'bin', exe)
+        if p.returncode == 0 and os.path.exists(path):
+            return [path]
+    return ['lake', 'env', 'lean', '--run', f'Driver/{main}.lean']
+
+
+def _drive_chunk(args):
+    cmd, chunk, timeout = args
+    p = subprocess.run(cmd, cwd=LEAN, input='\n'.join(chunk) + '\n', capture_output=True,
+                       text=True, timeout=timeout)
+    out = [l for l in p.stdout.splitlines() if 'conda.cli.condarc' not in l]
+    if p.returncode != 0 or len(out) != len(chunk):
+        raise DriverError(
+            f'driver rc={p.returncode} lines={len(out)}/{len(chunk)}\n' + _clean(p.stderr)[-3000:]
+        )
+    return out
+
+
 def driver(lines, main, timeout=3000):
-    """Send s-expression lines to the Lean model driver `lean/Driver/<main>.lean`;
-    one output line per input line."""
+    """Send s-expression lines to the Lean model driver `lean/Driver/<main>.lean` (interpreted, or
+    its native build when listed in NATIVE); one output line per input line.  Large batches are
+    split over several driver processes."""
     if not lines:
         return []
-    data = '\n'.join(lines) + '\n'
-    p = subprocess.run(
-        ['lake', 'env', 'lean', '--run', f'Driver/{main}.lean'],
-        cwd=LEAN,
-        input=data,
-        capture_output=True,
-        text=True,
-        timeout=timeout,
-    )
-    out = [l for l in p.stdout.splitlines() if 'conda.cli.condarc' not in l]
-    if p.returncode != 0 or len(out) != len(lines):
-        raise DriverError(
-            f'driver rc={p.returncode} lines={len(out)}/{len(lines)}\n'
-            + _clean(p.stderr)[-3000:]
-        )
+    cmd = _driver_cmd(main)
+    if len(lines) < 4000:
+        return _drive_chunk((cmd, lines, timeout))
+    import concurrent.futures
+
+    n = 16
+    step = (len(lines) + n - 1) // n
+    chunks = [lines[i:i + step] for i in range(0, len(lines), step)]
+    out = []
+    with concurrent.futures.ThreadPoolExecutor(n) as ex:
+        for part in ex.map(_drive_chunk, [(cmd, c, timeout) for c in chunks]):
+            out.extend(part)
     return out
 
 
